@@ -51,3 +51,134 @@ class transform_balances:
         ('from-and-where-passed-through', lambda balances, result: result.from_clause == balances.from_clause and result.where_clause == balances.where_clause),
         ('no-pivot-limit-distinct', lambda result: result.pivot_by is None and result.limit is None and result.distinct is None),
     ]
+
+
+# ---- the statement handlers of the compiler: PRINT reads the entries table under its own FROM clause; BALANCES / JOURNAL compile to
+# ---- exactly what their SELECT expansions compile to (C14 at the level of compiled statements) --------------------------------------------
+from contracts.c05 import CP, compiled_of
+from contracts.c13 import TCOMPILER
+from contracts.c07 import from_of
+
+
+@spec(uninterpreted=True, sig=(['val', 'val'], 'val'))
+def table_after_from(table, node):
+    """the table a statement reads after its FROM clause was applied to the current table (Compiler._compile_from: own contracts in c13.py)"""
+    raise NotImplementedError
+
+
+class _from_summary:
+    """summary of the three contracts of _compile_from: the statement's table is a function of the current table and the clause,
+    the result is the row filter of the clause"""
+    kind = 'assumed'
+    params = {'self': TCOMPILER, 'node': Dyn()}
+    result = Dyn(('none', 'obj'))
+    modifies = ['self.table']
+    raises = {'CompilationError': None}
+    ensures = [('row-filter', lambda node, result: result == from_of(node)),
+               ('table', lambda old, self, node: self.table == table_after_from(old.self.table, node))]
+
+
+@contract(f'{CP}:Compiler._print')
+class print_statement:
+    props = ['C14', 'C13']
+    params = {'self': TCOMPILER, 'node': Rec('Print', attrs=dict(from_clause=Dyn()))}
+    callees = {f'{CP}:Compiler._compile_from': Contract(f'{CP}:Compiler._compile_from', _from_summary, 'print')}
+    opaque_ctors = {'EvalPrint': ['table', 'where']}
+    modifies = ['self.table', 'fields:table', 'fields:where']
+    native = False
+    assumes = ['ATTRS_PRESENT', 'METHODS_PRESENT', '_compile_from as summarised from its own contracts', 'the table registry is a mapping: tables.get(name) is a pure lookup']
+    raises = {'CompilationError': None}
+    ensures = [
+        ('prints-the-entries-table-of-the-connection-under-the-statements-from-clause', lambda self, node, result:
+            result.table == table_after_from(self.context.tables.get('entries'), node.from_clause)),
+        ('filtered-by-the-from-expression', lambda node, result: result.where == from_of(node.from_clause)),
+    ]
+
+
+@spec(uninterpreted=True, sig=(['val'], 'val'))
+def balances_expansion(node):
+    raise NotImplementedError
+
+
+@spec(uninterpreted=True, sig=(['val'], 'val'))
+def journal_expansion(node):
+    raise NotImplementedError
+
+
+class _tb_assumed:
+    """transform_balances: a deterministic function of the statement (its own contract: c14.py)"""
+    kind = 'assumed'
+    params = {'balances': Dyn()}
+    result = Dyn(('obj',))
+    modifies = []
+    ensures = [('deterministic', lambda balances, result: result == balances_expansion(balances))]
+
+
+class _tj_assumed:
+    kind = 'assumed'
+    params = {'journal': Dyn()}
+    result = Dyn(('obj',))
+    modifies = []
+    ensures = [('deterministic', lambda journal, result: result == journal_expansion(journal))]
+
+
+from contracts.c09 import _callee_compile
+
+
+@contract(f'{CP}:Compiler._balances')
+class balances_statement:
+    props = ['C14']
+    params = {'self': TCOMPILER, 'node': Rec('Balances', attrs={})}
+    callees = dict(_callee_compile('balances'), **{f'{CP}:transform_balances': Contract(f'{CP}:transform_balances', _tb_assumed, 'stmt')})
+    modifies = []
+    native = False
+    assumes = ['ATTRS_PRESENT', '_compile as assumed (deterministic)']
+    raises = {'CompilationError': None}
+    ensures = [('compiles-to-what-its-select-expansion-compiles-to', lambda node, result: result == compiled_of(balances_expansion(node)))]
+
+
+@contract(f'{CP}:Compiler._journal')
+class journal_statement:
+    props = ['C14']
+    params = {'self': TCOMPILER, 'node': Rec('Journal', attrs={})}
+    callees = dict(_callee_compile('journal'), **{f'{CP}:transform_journal': Contract(f'{CP}:transform_journal', _tj_assumed, 'stmt')})
+    modifies = []
+    native = False
+    assumes = ['ATTRS_PRESENT', '_compile as assumed (deterministic)']
+    raises = {'CompilationError': None}
+    ensures = [('compiles-to-what-its-select-expansion-compiles-to', lambda node, result: result == compiled_of(journal_expansion(node)))]
+
+
+# ---- execute_print: the directives handed to the Beancount printer are those of the rows whose FROM expression is absent or true
+# ---- (truth value, as WHERE tests it), in table order: loop invariant against a recursive specification, and an obligation on the
+# ---- arguments of the call of the external printer -----------------------------------------------------------------------------
+QX = 'beanquery.query_execute'
+ROW = Rec('row', attrs=dict(entry=Opaque('entry')))
+TABLE = Rec('table', attrs=dict(options=Opaque('options')))
+CPRINT = Rec('EvalPrint', attrs=dict(table=TABLE, where=Dyn(('none', 'obj'))))
+
+
+@spec(rec=True, sig=(['seq', 'val', 'int'], 'seq'))
+def selected(rows, where, n):
+    """the directives of the first n rows whose FROM expression is absent or true (a truth value test, as WHERE does), in table order"""
+    if n <= 0:
+        return []
+    row = rows[n - 1]
+    if where is None or bool(ev(where, row)):
+        return selected(rows, where, n - 1) + [row.entry]
+    return selected(rows, where, n - 1)
+
+
+@contract(f'{QX}:execute_print')
+class execute_print:
+    props = ['C14']
+    params = {'c_print': CPRINT, 'file': Opaque('file')}
+    externals = {'beancount.core.display_context.DisplayContext': 1, 'beancount.parser.printer.print_entries': 1}
+    modifies = []
+    native = False
+    assumes = ['ATTRS_PRESENT', 'METHODS_PRESENT', 'PURE_CHILDREN', 'ITERABLE', 'the table is iterated as the sequence of its rows (table iteration: C11 / C13)',
+               'Beancount printer and display context are external (C14 round trip: bounded, h14)']
+    loops = {0: dict(inv=lambda c_print, entries, expr, _i: entries == selected(c_print.table, c_print.where, _i) and expr == c_print.where)}
+    call_requires = {'beancount.parser.printer.print_entries': lambda c_print, file, args:
+                     args[0] == selected(c_print.table, c_print.where, len(c_print.table))}
+    ensures = [('returns-nothing', lambda result: result is None)]
